@@ -2,7 +2,7 @@
 From Coq Require Import List NArith Bool Lia.
 From SV Require Import lib.Bytes lib.Closure model.Graph model.GraphInv
   proofs.GraphBase proofs.GraphNodes proofs.GraphInvP proofs.GraphPrims proofs.GraphCreate
-  proofs.GraphOps proofs.GraphLife.
+  proofs.GraphFrames proofs.GraphOps proofs.GraphLife proofs.GraphSucc.
 Import ListNotations.
 Open Scope N_scope.
 
@@ -24,17 +24,17 @@ Lemma step_op_inv hh o s :
   wpg false (step_op o s) (fun s' => Inv hh s').
 Proof.
   intros HI Hproto. destruct o; cbn [step_op].
-  - apply declare_static_files_spec; [exact HI | intros Hlax; discriminate Hlax].
+  - eapply wpg_weaken; [apply (@declare_static_files_spec hh); [exact HI | intros Hlax; discriminate Hlax]|]. intros s' [H _]. exact H.
   - eapply wpg_weaken; [apply (@update_file_hashes_spec hh); [exact HI | intros Hlax; discriminate Hlax]|]. intros s' [H _]. exact H.
-  - apply define_step_spec; [exact HI | intros Hlax; discriminate Hlax].
-  - apply amend_step_spec; [exact HI | intros Hlax; discriminate Hlax].
+  - eapply wpg_weaken; [apply (@define_step_spec hh); [exact HI | intros Hlax; discriminate Hlax]|]. intros s' [H _]. exact H.
+  - eapply wpg_weaken; [apply (@amend_step_spec hh); [exact HI | intros Hlax; discriminate Hlax]|]. intros s' [H _]. exact H.
   - eapply wpg_weaken; [apply (@set_sstate_spec hh); [exact HI | intros Hlax; discriminate Hlax]|]. intros s' [H _]. exact H.
-  - apply reset_for_rerun_spec. exact HI.
+  - eapply wpg_weaken; [apply (@reset_for_rerun_spec hh); exact HI|]. intros s' [H _]. exact H.
   - apply wpg_bind. eapply wpg_weaken; [apply (@update_file_hashes_spec hh); [exact HI | intros Hlax; discriminate Hlax]|].
     intros s0 [I0 _]. apply wpg_bind. eapply wpg_weaken; [apply (@update_file_hashes_spec hh); [exact I0 | intros Hlax; discriminate Hlax]|].
     intros s1 [I1 _]. apply mark_completed_spec. exact I1.
   - apply wpg_bind. eapply wpg_weaken; [apply (@reset_for_rerun_spec hh); exact HI|].
-    intros s1 I1. eapply wpg_weaken; [apply (@set_sstate_spec hh); [apply delete_hash_inv; exact I1 | intros Hlax; discriminate Hlax]|].
+    intros s1 [I1 _]. eapply wpg_weaken; [apply (@set_sstate_spec hh); [apply delete_hash_inv; exact I1 | intros Hlax; discriminate Hlax]|].
     intros s' [H _]. exact H.
   - eapply wpg_weaken; [apply (@set_sstate_spec hh); [exact HI | intros Hlax; discriminate Hlax]|]. intros s' [H _]. exact H.
   - eapply wpg_weaken; [apply (@mark_step_pending_spec hh); [exact HI | intros Hlax; discriminate Hlax]|]. intros s' [H _]. exact H.
@@ -135,4 +135,182 @@ Proof.
     - unfold hold. rewrite Hreq. cbn. exact I.
     - unfold release. destruct (find_step label s); [|discriminate]. destruct (shold s0 =? 0); exact I. }
   destruct (step_op o s); cbn in *; [reflexivity | reflexivity | contradiction].
+Qed.
+
+(* ------------------------------------------------------------------------------------------ *)
+(* the full invariant (with I4 and I5c) within the build-loop protocol                         *)
+(* ------------------------------------------------------------------------------------------ *)
+Definition InvF (s : st) : Prop := Inv true s /\ J1 s /\ K s.
+
+Lemma InvF_GG s s' : InvF s -> Inv true s' -> GG s s' -> InvF s'.
+Proof. intros [_ [HJ HK]] HI HG. split; [exact HI|]. split; [eapply J1_GG | eapply K_GG]; eassumption. Qed.
+
+Lemma not_succeeded_spec l s : not_succeeded_b l s = true -> sstate_of l s <> Some SSucceeded.
+Proof. unfold not_succeeded_b. destruct (sstate_of l s) as [[]|]; congruence. Qed.
+
+Lemma dispatch_full l s :
+  InvF s -> wpg false (set_sstate l (if has_hash l s then SChecking else SRunning) false s) InvF.
+Proof.
+  intros [HI [HJ HK]].
+  destruct (set_sstate l (if has_hash l s then SChecking else SRunning) false s) as [s'|t|t] eqn:Es; try exact I.
+  pose proof (@set_sstate_spec true false l (if has_hash l s then SChecking else SRunning) false s HI
+                (fun H _ => False_ind _ (diff_false_true H))) as Hsp.
+  rewrite Es in Hsp. cbn in Hsp. destruct Hsp as [I' [S' [F' [U' [Hoth [Hnew Hsame]]]]]].
+  cbn. split; [exact I'|].
+  destruct (find_step l s) eqn:Hrow.
+  2:{ rewrite (Hsame eq_refl). auto. }
+  assert (Hn : sstate_of l s' = Some (if has_hash l s then SChecking else SRunning)) by (apply Hnew; discriminate).
+  split.
+  - intros x f [A [B C]]. apply (HJ x f). split; [|split].
+    + destruct (str_eq_dec x l) as [->|Hne]; [rewrite Hn in A; destruct (has_hash l s); discriminate|].
+      unfold sstate_of in *. rewrite (Hoth x Hne) in A. exact A.
+    + rewrite <- (SO_creator_of _ _ _ S'). exact B.
+    + unfold po, fstate_of, find_file in *. rewrite F' in C. exact C.
+  - intros x Hr. unfold has_hash. rewrite U'. fold (has_hash x s).
+    destruct (str_eq_dec x l) as [->|Hne].
+    + rewrite Hn in Hr. destruct (has_hash l s); [discriminate | reflexivity].
+    + apply HK. unfold sstate_of in *. rewrite (Hoth x Hne) in Hr. exact Hr.
+Qed.
+
+Lemma step_op_full o s :
+  InvF s -> protocol_ok s o = true -> wpg false (step_op o s) InvF.
+Proof.
+  intros HF Hp. pose proof HF as [HI [HJ HK]]. destruct o; cbn [step_op].
+  - eapply wpg_weaken; [apply (@declare_static_files_spec true); [exact HI | intros H; discriminate H]|].
+    intros s' [I' G']. eapply InvF_GG; eassumption.
+  - eapply wpg_weaken.
+    + apply wpg_conj; [apply (@update_file_hashes_spec true); [exact HI | intros H; discriminate H] | apply (@update_file_hashes_GG true); exact HI].
+    + intros s' [[I' _] G']. eapply InvF_GG; eassumption.
+  - eapply wpg_weaken; [apply (@define_step_spec true); [exact HI | intros H; discriminate H]|].
+    intros s' [I' G']. eapply InvF_GG; eassumption.
+  - eapply wpg_weaken; [apply (@amend_step_spec true); [exact HI | intros H; discriminate H]|].
+    intros s' [I' G']. eapply InvF_GG; [exact HF | exact I' | apply G'; apply not_succeeded_spec; exact Hp].
+  - apply dispatch_full. exact HF.
+  - eapply wpg_weaken; [apply (@reset_for_rerun_spec true); exact HI|].
+    intros s' [I' G']. eapply InvF_GG; [exact HF | exact I' | apply G'; apply not_succeeded_spec; exact Hp].
+  - (* exec_end *)
+    cbn [protocol_ok] in Hp.
+    apply wpg_bind.
+    destruct (update_file_hashes CFailed pre s) as [s0|t|t] eqn:E0; try exact I.
+    pose proof (@update_file_hashes_spec true false CFailed pre s HI (fun H => False_ind _ (diff_false_true H))) as H0.
+    pose proof (@update_file_hashes_GG true CFailed pre s HI) as G0. rewrite E0 in H0, G0. cbn in H0, G0.
+    destruct H0 as [I0 _]. cbn [wpg]. apply wpg_bind.
+    destruct (update_file_hashes c hs s0) as [s1|t|t] eqn:E1; try exact I.
+    pose proof (@update_file_hashes_spec true false c hs s0 I0 (fun H => False_ind _ (diff_false_true H))) as H1.
+    pose proof (@update_file_hashes_GG true c hs s0 I0) as G1. rewrite E1 in H1, G1. cbn in H1, G1.
+    destruct H1 as [I1 _]. cbn [wpg].
+    assert (HF1 : InvF s1). { eapply InvF_GG; [exact HF | exact I1 | eapply GG_trans; eassumption]. }
+    destruct success.
+    + eapply wpg_weaken.
+      * apply wpg_conj; [apply (@mark_completed_spec true); exact I1|].
+        apply (@mark_completed_succ true); [exact I1 | apply HF1 | apply HF1 |].
+        apply (@no_planned_product_spec true); [exact Hp | exact I1].
+      * intros s' [I' [J' K']]. split; [exact I' | split; assumption].
+    + eapply wpg_weaken.
+      * apply wpg_conj; [apply (@mark_completed_spec true); exact I1 | apply (@mark_completed_fail_GG true); exact I1].
+      * intros s' [I' G']. eapply InvF_GG; eassumption.
+  - (* reset_to_pending *)
+    apply wpg_bind. eapply wpg_weaken; [apply (@reset_for_rerun_spec true); exact HI|].
+    intros s1 [I1 G1]. specialize (G1 (not_succeeded_spec _ _ Hp)).
+    destruct (delete_hash_inv label s1 I1) as [I2 _].
+    destruct (set_sstate label SPending false (delete_hash label s1)) as [s'|t|t] eqn:Es; try exact I.
+    pose proof (@set_sstate_spec true false label SPending false _ I2 (fun H _ => False_ind _ (diff_false_true H))) as Hs.
+    rewrite Es in Hs. cbn in Hs. destruct Hs as [I' _]. cbn.
+    eapply InvF_GG; [exact HF | exact I'|]. eapply GG_trans; [exact G1|]. apply G3_GG.
+    eapply G3_trans; [apply delete_hash_G3 | eapply set_sstate_G3; [| |exact Es]; discriminate].
+  - destruct (set_sstate label SPending false s) as [s'|t|t] eqn:Es; try exact I.
+    pose proof (@set_sstate_spec true false label SPending false s HI (fun H _ => False_ind _ (diff_false_true H))) as Hs.
+    rewrite Es in Hs. cbn in Hs. destruct Hs as [I' _]. cbn.
+    eapply InvF_GG; [exact HF | exact I' | apply G3_GG; eapply set_sstate_G3; [| |exact Es]; discriminate].
+  - eapply wpg_weaken.
+    + apply wpg_conj; [apply (@mark_step_pending_spec true); [exact HI | intros H; discriminate H] | apply (@mark_step_pending_GG true); exact HI].
+    + intros s' [[I' _] G']. eapply InvF_GG; eassumption.
+  - eapply wpg_weaken.
+    + apply wpg_conj; [apply (@delete_detached_spec true); exact HI | apply delete_detached_GG].
+    + intros s' [I' G']. eapply InvF_GG; eassumption.
+  - destruct (hold label s) as [s'|t|t] eqn:Es; try exact I.
+    pose proof (@hold_spec true label s HI (fun _ => Hp)) as Hs. rewrite Es in Hs. cbn in *.
+    eapply InvF_GG; [exact HF | exact Hs | apply G3_GG; eapply hold_G3; exact Es].
+  - destruct (release label s) as [s'|t|t] eqn:Es; try exact I.
+    pose proof (@release_spec true label s HI) as Hs. rewrite Es in Hs. cbn in *.
+    eapply InvF_GG; [exact HF | exact Hs | apply G3_GG; eapply release_G3; exact Es].
+  - eapply wpg_weaken.
+    + apply wpg_conj; [apply (@reset_interrupted_spec true); exact HI | apply (@reset_interrupted_GG true); exact HI].
+    + intros s' [I' G']. eapply InvF_GG; eassumption.
+Qed.
+
+(* reflection of the two protocol clauses *)
+Lemma J1_reflect s : Inv true s -> (inv_succ_products_b s = true <-> J1 s).
+Proof.
+  intros HI. unfold inv_succ_products_b. rewrite forallb_forall. split.
+  - intros H l f [A [B [C|C]]]; rewrite creator_of_findn in B;
+      (destruct (findn (KFile, f) (nodes s)) as [n|] eqn:Hn; [|discriminate]);
+      pose proof (findn_In _ _ _ Hn) as [Hin Hk]; specialize (H n Hin); rewrite Hk, B, A, C in H; discriminate.
+  - intros HJ n Hn. destruct (nk n) as [[] f] eqn:Hk; try reflexivity.
+    destruct (ncre n) as [[[] l]|] eqn:Hc; try reflexivity.
+    destruct (sstate_of l s) as [[]|] eqn:Hs; try reflexivity. cbn.
+    destruct (fstate_of f s) as [[]|] eqn:Hf; try reflexivity; exfalso; apply (HJ l f);
+      (split; [exact Hs|]); (split; [rewrite creator_of_findn, <- Hk, (In_findn _ _ (nw_nodup _ (inv_nw _ HI)) Hn); exact Hc|]);
+      [left | right]; exact Hf.
+Qed.
+
+Lemma K_reflect s : Inv true s -> (inv_running_nohash_b s = true <-> K s).
+Proof.
+  intros HI. unfold inv_running_nohash_b. rewrite forallb_forall. split.
+  - intros H l Hr. rewrite sstate_of_finds in Hr. destruct (finds l (steps s)) as [r|] eqn:Hf; [|discriminate].
+    pose proof (finds_In _ _ _ Hf) as [Hin Hl]. specialize (H r Hin). cbn in Hr. inversion Hr as [Hst].
+    rewrite Hst, Hl in H. cbn in H. apply negb_true_iff in H. exact H.
+  - intros HK r Hr. destruct (sstate_eqb (sst r) SRunning) eqn:E; [|reflexivity]. apply sstate_eqb_eq in E. cbn.
+    apply negb_true_iff. apply HK. rewrite sstate_of_finds, (In_finds _ _ (rw_snodup _ _ _ _ _ (inv_rw _ HI)) Hr).
+    cbn. rewrite E. reflexivity.
+Qed.
+
+Lemma inv_full_iff s : inv_full_b s = true <-> InvF s.
+Proof.
+  unfold inv_full_b, InvF. rewrite !andb_true_iff, inv_b_iff. split.
+  - intros [[HI H1] H2]. split; [exact HI|]. split; [apply J1_reflect | apply K_reflect]; assumption.
+  - intros [HI [H1 H2]]. split; [split; [exact HI|]|]; [apply J1_reflect | apply K_reflect]; assumption.
+Qed.
+
+Lemma inv_full_preserved s o :
+  inv_full_b s = true -> protocol_ok s o = true -> inv_full_b (apply_op s o) = true.
+Proof.
+  intros H Hp. apply inv_full_iff. apply inv_full_iff in H. unfold apply_op.
+  pose proof (step_op_full o s H Hp) as Hw. destruct (step_op o s); [exact Hw | exact H | exact H].
+Qed.
+
+Lemma inv_full_init cap : inv_full_b (init_st cap) = true.
+Proof. vm_compute. reflexivity. Qed.
+
+Lemma reachable_inv_full cap ops :
+  protocol_ok_run (init_st cap) ops = true -> all_prefixes_ok inv_full_b (init_st cap) ops = true.
+Proof.
+  generalize (inv_full_init cap). generalize (init_st cap).
+  induction ops as [|o ops IH]; intros s Hs Hp; cbn [all_prefixes_ok]; rewrite Hs; [reflexivity|].
+  cbn in Hp. apply andb_true_iff in Hp. destruct Hp as [Hp1 Hp2]. cbn.
+  apply IH; [apply inv_full_preserved; assumption | exact Hp2].
+Qed.
+
+(* I4: a SUCCEEDED step has only BUILT or VOLATILE attached outputs *)
+Lemma succeeded_outputs_built s : inv_full_b s = true -> inv_succeeded_b s = true.
+Proof.
+  intros H. apply inv_full_iff in H. destruct H as [HI [HJ _]].
+  unfold inv_succeeded_b. apply forallb_forall. intros r Hr.
+  destruct (sstate_eqb (sst r) SSucceeded) eqn:E; [|reflexivity]. apply sstate_eqb_eq in E. cbn.
+  apply forallb_forall. intros f Hf. apply file_sinks_In in Hf.
+  apply in_map_iff in Hf. destruct Hf as [d [Hd1 Hd2]].
+  assert (Hsrc : dsrc d = (KStep, sl r)) by (unfold edge_of in Hd1; congruence).
+  assert (Hsnk : dsnk d = (KFile, f)) by (unfold edge_of in Hd1; congruence).
+  rewrite is_detached_findn. destruct (findn (KFile, f) (nodes s)) as [n|] eqn:Hn; [|reflexivity].
+  destruct (ndet n) eqn:Hdet; [reflexivity|]. cbn.
+  pose proof (findn_In _ _ _ Hn) as [Hin Hk].
+  assert (Hl : local_ok (nodes s) n). { apply (nw_local _ (inv_nw _ HI)); [exact Hin | rewrite Hk; discriminate]. }
+  unfold local_ok in Hl. destruct (ncre n) as [c|] eqn:Hc; [|congruence].
+  destruct (inv_oe _ HI d (sl r) f Hd2 Hsrc Hsnk n c Hn Hc) as [Hce [r' [Hr' Ho]]].
+  rewrite fstate_of_findf, Hr'. cbn.
+  assert (Hnv : ~ V s (sl r) f) by apply HJ.
+  destruct (fstt r') eqn:Est; try discriminate; try reflexivity; exfalso; apply Hnv;
+    (split; [rewrite sstate_of_finds, (In_finds _ _ (rw_snodup _ _ _ _ _ (inv_rw _ HI)) Hr); cbn; rewrite E; reflexivity|]);
+    (split; [rewrite creator_of_findn, Hn, Hc, Hce; reflexivity|]);
+    unfold po; rewrite fstate_of_findf, Hr'; cbn; rewrite Est; auto.
 Qed.
